@@ -15,6 +15,18 @@ the bound).  Further oracles: arrays handed out by the operands are bitwise unch
 has been evaluated / differentiated; re-evaluation at the same point returns the same value; KS bounds lie
 on the documented side of the true maximum.
 
+Axes of the two helpers with a registered / partial-evaluation path:
+* ``ConvexLinearApprox``: ``approx_indexes`` in {None, every boolean mask (all-False, every mixed one, all-True)} x every
+  base (separable and non-separable) x expansion point.  The closed form is compared entry by entry at every point; the
+  entries into which a reciprocal term enters are the footprint of the registered known finding (reciprocal step) and
+  keep its signature (op=ConvexLinearApprox); a mismatch on any other entry - outputs without reciprocal term,
+  direct-term entries, columns of the non-approximated inputs (df/dx_i at the MERGED point) - has its own signature
+  (op=ConvexLinearApprox[...]) that the known finding does not match.
+* ``ConstraintAggregation``: compute_all_jacobians=True on 1- and 2-input layouts, and every multi-input layout
+  ([1,1], [1,2], [2,1], [1,1,1]) x every non-empty subset of the inputs declared as differentiated inputs
+  (compute_all_jacobians=False) x 6 methods x every index group x scale kind: the requested blocks are the columns of
+  the closed-form derivative of the aggregation of the WHOLE constraint vector.
+
 Attribution: phases are run simplest-first (depth 1, helpers on depth <= 1, depth 2, depth 3); a tree that
 contains a sub-tree which already failed on its own is not evaluated again ("masked") so that a violation
 is reported with the operator and operand shape class of the node that breaks.
@@ -93,9 +105,12 @@ class OperandModified(Exception):
 class D:
     """value (m,), derivative (m, n), rounding-error bounds of both, largest magnitude met while computing them."""
 
-    __slots__ = ("v", "d", "ev", "ed", "mag")
+    __slots__ = ("v", "d", "ev", "ed", "mag", "tv", "td")
 
     def __init__(self, v, d, ev=None, ed=None, mag=0.0):
+        # optional boolean masks (same shapes as v / d) of the entries that lie in the footprint of a registered known
+        # finding (see h_conlin); None everywhere else
+        self.tv = self.td = None
         self.v = np.asarray(v, dtype=float).reshape(-1)
         self.d = np.asarray(d, dtype=float).reshape(self.v.size, -1)
         self.ev = np.zeros_like(self.v) if ev is None else np.asarray(ev, dtype=float).reshape(-1)
@@ -623,6 +638,9 @@ def short(a):
 class Verdict:
     def __init__(self):
         self.bad = []  # (invariant, message, point)
+        self.tainted = []  # first mismatch confined to the entries flagged by the oracle (D.tv / D.td), see h_conlin
+        self.notes = {}  # counters to add to the tally (coverage classes of the case)
+        self.where = None  # boolean mask of the mismatching entries of the first "value" / "jacobian" entry of ``bad``
         self.checked = 0
         self.skipped = 0
         self.max_rel_tol = 0.0
@@ -683,15 +701,27 @@ def compare(fn, oracle, pts, env, vd, twice=True):
         if v.shape != ref.v.shape:
             vd.bad.append(("value-shape", f"value shape {np.shape(v1)} expected ({ref.m},): got {short(v1c)} expected {short(ref.v)}", x))
             return
-        if not np.all(abs(v - ref.v) <= tol_v):
-            vd.bad.append(("value", f"value {short(v)} expected {short(ref.v)} (tolerance {short(tol_v)})", x))
-            return
+        ok_v = abs(v - ref.v) <= tol_v
+        if not np.all(ok_v):
+            entry = ("value", f"value {short(v)} expected {short(ref.v)} (tolerance {short(tol_v)})", x)
+            if ref.tv is None or not np.all(ok_v | ref.tv):
+                vd.where = ~ok_v if ref.tv is None else ~(ok_v | ref.tv)
+                vd.bad.append(entry)
+                return
+            if not vd.tainted:
+                vd.tainted.append(entry)
         if jd.shape != ref.d.shape:
             vd.bad.append(("jacobian-shape", f"Jacobian shape {np.shape(j)} expected {ref.d.shape} (or 1-D for a scalar function): got {short(jd)} expected {short(ref.d)}", x))
             return
-        if not np.all(abs(jd - ref.d) <= tol_d):
-            vd.bad.append(("jacobian", f"Jacobian {short(jd)} expected {short(ref.d)} (tolerance {short(tol_d.max())})", x))
-            return
+        ok_d = abs(jd - ref.d) <= tol_d
+        if not np.all(ok_d):
+            entry = ("jacobian", f"Jacobian {short(jd)} expected {short(ref.d)} (tolerance {short(tol_d.max())})", x)
+            if ref.td is None or not np.all(ok_d | ref.td):
+                vd.where = ~ok_d if ref.td is None else ~(ok_d | ref.td)
+                vd.bad.append(entry)
+                return
+            if not vd.tainted:
+                vd.tainted.append(entry)
         if twice:
             try:
                 v2 = np.array(fn.evaluate(xin), dtype=float)
@@ -1012,9 +1042,13 @@ def h_conlin(case, env, vd):
     fn = guarded_build(lambda: ConvexLinearApprox(x0.copy(), f, None if mask is None else mask.copy()), vd) if f is not None else None
     mk = np.ones(n, dtype=bool) if mask is None else mask
 
+    seen = {"coupled": False, "reciprocal": False}
+
     def oracle(x):
         # convex linearization (Fleury & Braibant): f(x~) + sum_{c>0} c_i (x_i - x0_i) + sum_{c<0} c_i x0_i^2 (1/x0_i - 1/x_i)
-        # = f(x~) + sum_{c<0} (-c_i x0_i^2) (1/x_i - 1/x0_i); x~ = x0 on the approximated inputs, x elsewhere
+        # = f(x~) + sum_{c<0} (-c_i x0_i^2) (1/x_i - 1/x0_i); x~ = x0 on the approximated inputs, x elsewhere; the
+        # derivative w.r.t. a non-approximated input is therefore df/dx_i AT x~ (not at x), w.r.t. an approximated one
+        # c_i or -c_i x0_i^2 / x_i^2
         r0 = base_dual(b, x0)
         merged = np.where(mk, x0, x)
         rm = base_dual(b, merged)
@@ -1023,6 +1057,8 @@ def h_conlin(case, env, vd):
         d = rm.d.copy()
         ev = rm.ev.copy()
         ed = rm.ed.copy()
+        tv = np.zeros(m, dtype=bool)
+        td = np.zeros((m, n), dtype=bool)
         for i in range(n):
             if not mk[i]:
                 continue
@@ -1045,11 +1081,46 @@ def h_conlin(case, env, vd):
                     d[j, i] = -k / x[i] ** 2
                     ev[j] += (r0.ed[j, i] * x0[i] ** 2 + 6 * U * abs(k)) * (abs(1.0 / x[i]) + abs(1.0 / x0[i]))
                     ed[j, i] = (r0.ed[j, i] * x0[i] ** 2 + 6 * U * abs(k)) / x[i] ** 2
+                    tv[j] = td[j, i] = True  # a reciprocal term enters this output / this Jacobian entry
         ev += 4 * n * U * abs(v)
-        return D(v, d, ev, ed, max(r0.mag, rm.mag))
+        if not np.all(mk) and not np.array_equal(merged, x):
+            try:  # coverage only: do the columns of the non-approximated inputs differ between x~ and x ?
+                if not np.array_equal(base_dual(b, x).d[:, ~mk], rm.d[:, ~mk]):
+                    seen["coupled"] = True
+            except Singular:
+                pass
+        seen["reciprocal"] = seen["reciprocal"] or bool(tv.any())
+        out = D(v, d, ev, ed, max(r0.mag, rm.mag))
+        out.tv, out.td = tv, td
+        return out
 
-    sig = {"op": "ConvexLinearApprox", "operands": f"{base_cls(b)};mask={'all' if mask is None else 'partial'}"}
-    return fn, oracle, pts, sig, f"ConvexLinearApprox(x0={short(x0)}, {t_key(b)}, mask={case['mask']})"
+    mask_cls = "none" if mask is None else "all-true" if mask.all() else "all-false" if not mask.any() else "mixed"
+    sig = {"op": "ConvexLinearApprox", "operands": f"{base_cls(b)};mask={mask_cls}"}
+    what = f"ConvexLinearApprox(x0={short(x0)}, {t_key(b)}, mask={case['mask']})"
+    if fn is None or vd.bad:
+        return None, oracle, pts, sig, what
+    # The registered known finding (signature op=ConvexLinearApprox, invariant value / jacobian: reciprocal step
+    # 1/(x - x0) instead of 1/x - 1/x0) can only touch the entries into which a reciprocal term enters: the outputs j with
+    # a negative dJ_ji(x0) on some approximated input i (value) and the entries (j, i) themselves (Jacobian); the oracle
+    # flags them (D.tv / D.td).  The oracle is the closed form on EVERY entry; only the signature differs: a mismatch on a
+    # flagged entry keeps the registered signature, a mismatch on any other entry (outputs without reciprocal term,
+    # direct-term entries, columns of the non-approximated inputs = df/dx_i at the merged point) gets its own "op" and
+    # is therefore never matched by the known finding.  All the points are compared (a flagged mismatch does not stop
+    # the comparison), the unflagged mismatch has priority.
+    compare(fn, oracle, pts, env, vd)
+    if vd.bad and vd.bad[0][0] in ("value", "jacobian") and vd.where is not None:
+        if vd.bad[0][0] == "value":
+            part = "outputs without reciprocal term"
+        elif vd.where[:, ~mk].any():
+            part = "columns of the non-approximated inputs"
+        else:
+            part = "entries without reciprocal term"
+        sig["op"] = f"ConvexLinearApprox[{part}]"
+    elif not vd.bad and vd.tainted:
+        vd.bad.append(vd.tainted[0])
+    case_cls = f"mask={mask_cls};{'coupled' if seen['coupled'] else 'not-coupled'};{'reciprocal' if seen['reciprocal'] else 'direct-only'}"
+    vd.notes = {f"conlin[{case_cls}]": 1}
+    return _Done, oracle, pts, sig, what
 
 
 # --- aggregations ------------------------------------------------------------------------------------
@@ -1216,13 +1287,32 @@ def h_discipline(case, env, vd):
         kw["rho"] = case["rho"]
     rho = kw.get("rho", 1e2)
     names = [f"g{i}" for i in range(len(sizes))]
-    sig = {"op": "ConstraintAggregation", "operands": f"{method};inputs={len(sizes)};indices={'none' if idx is None else 'group'};scale={case['scale']}"}
-    what = f"ConstraintAggregation({names}, {method}, {kw})"
+    # differentiated inputs: None = linearize(compute_all_jacobians=True); a list of input positions = these inputs are
+    # declared with add_differentiated_inputs and the discipline is linearized with compute_all_jacobians=False, as a
+    # formulation / chain does when only some of the aggregated constraints depend on the design variables.  The
+    # aggregated value depends on ALL the constraints whatever the differentiated inputs: the requested blocks are the
+    # corresponding columns of the closed-form derivative of the aggregation of the whole constraint vector.
+    diff = case.get("diff")
+    diff_cls = "all(compute_all_jacobians)" if diff is None else "all-declared" if len(diff) == len(sizes) else "strict-subset"
+    sig = {"op": "ConstraintAggregation",
+           "operands": f"{method};inputs={len(sizes)};indices={'none' if idx is None else 'group'};scale={case['scale']};differentiated={diff_cls}"}
+    what = f"ConstraintAggregation({names} of sizes {sizes}, {method}, {kw})" \
+        + ("" if diff is None else f", differentiated inputs {[names[i] for i in diff]}, compute_all_jacobians=False")
     disc = guarded_build(lambda: ConstraintAggregation(names, method, **kw), vd)
     if disc is None:
         return None, None, [], sig, what
     out_name = f"{method}_{names[0]}"
     gpts = [array(p[:mfull]) for p in GVALS]
+    offs = np.concatenate([[0], np.cumsum(sizes)])
+    wrt = list(range(len(sizes))) if diff is None else list(diff)
+    cols = [c for i in wrt for c in range(offs[i], offs[i + 1])]
+    if diff is not None:
+        try:
+            disc.add_differentiated_inputs([names[i] for i in diff])
+            disc.add_differentiated_outputs([out_name])
+        except Exception as e:
+            vd.bad.append(("raises:build", f"{type(e).__name__}: {str(e)[:160]}", None))
+            return None, None, [], sig, what
 
     class Fn:  # the discipline seen as a function of the concatenated constraint vector
         def _data(self, gv):
@@ -1243,13 +1333,22 @@ def h_discipline(case, env, vd):
 
         def jac(self, gv):
             data = self._data(gv)
-            disc.linearize(data, compute_all_jacobians=True)
-            return np.hstack([dense(disc.jac[out_name][nm]) for nm in names])
+            if diff is None:
+                disc.linearize(data, compute_all_jacobians=True)
+            else:
+                disc.linearize(data)
+            # the blocks of the differentiated inputs only (whatever else the discipline returns is not looked at)
+            return np.hstack([dense(disc.jac[out_name][names[i]]) for i in wrt])
 
     def oracles(gv):
-        return agg_dual(method, D(gv, np.eye(mfull)), idx, scale, rho, mfull)
+        out = []
+        for r, label in agg_dual(method, D(gv, np.eye(mfull)), idx, scale, rho, mfull):
+            out.append((D(r.v, r.d[:, cols], r.ev, r.ed[:, cols], r.mag), label))
+        return out
 
     compare_multi(Fn(), oracles, gpts, None, vd)
+    if diff is not None and len(sizes) > 1:
+        vd.notes = {f"discipline[inputs={len(sizes)};differentiated={diff_cls}]": 1}
     return None if vd.bad else _Done, oracles, gpts, sig, what
 
 
@@ -1509,6 +1608,8 @@ def run_helper(case, tally):
     if fn is not None and fn is not _Done and not vd.bad:
         compare(fn, oracle, pts, env, vd)
     report(tally, case, sig, vd, key, True, what)
+    for name, k in vd.notes.items():
+        tally.count(name, k)
 
 
 def run_case(case, tally):
@@ -1537,7 +1638,7 @@ def ordered_selections(n):
     return out
 
 
-def helper_cases(bases2, c):
+def helper_cases(bases2, c, thorough=False):
     """``bases2``: leaves and depth-1 trees over the 2-input alphabet."""
     leaves3 = [["leaf", n] for n in LEAVES3]
     cases = []
@@ -1595,10 +1696,13 @@ def helper_cases(bases2, c):
         for i in range(9 if n == 2 else 4):
             for h in ("zero", "sym") + (("exact",) if name == "quad" else ()):
                 cases.append({"helper": "taylor2", "base": ["leaf", name], "x0": i, "hessian": h})
-    # convex linearization: every mask
+    # convex linearization: no mask (None) and EVERY boolean mask: all-False (the linearization is the function itself),
+    # every mixed one, all-True; the alphabet of bases holds separable functions (w22, the linear leaves, sums) and
+    # non-separable ones (s0, s, v22, v32, quad, t3, t33, t23, products), so that for the mixed masks the columns of the
+    # non-approximated inputs at the merged point differ from those at the evaluation point (counted: conlin[..;coupled;..])
     for b in bases2 + leaves3:
         n = LEAF_NIN[t_leaves(b)[0]]
-        masks = [None] + [[i in s for i in range(n)] for s in subsets(n, proper=False)[1:]]
+        masks = [None] + [[i in s for i in range(n)] for s in subsets(n, proper=False)]
         for mk in masks:
             for i in ((0, 1, 2, 3) if b[0] == "leaf" else (0,)):
                 cases.append({"helper": "conlin", "base": b, "mask": mk, "x0": i})
@@ -1611,7 +1715,7 @@ def helper_cases(bases2, c):
                 for sc in SCALES:
                     for rho in ((None, 3.0) if method in ("IKS", "lower_bound_KS", "upper_bound_KS") else (None,)):
                         cases.append({"helper": "aggregate", "method": method, "base": ["leaf", gname], "indices": idx, "scale": sc, "rho": rho})
-    # ConstraintAggregation discipline
+    # ConstraintAggregation discipline, all the Jacobians (compute_all_jacobians=True)
     for method in AGGS:
         for sizes in ([2], [3], [1, 2]):
             m = sum(sizes)
@@ -1619,6 +1723,21 @@ def helper_cases(bases2, c):
                 for sc in SCALES:
                     for rho in ((None, 3.0) if method in ("IKS", "lower_bound_KS", "upper_bound_KS") else (None,)):
                         cases.append({"helper": "discipline", "method": method, "sizes": sizes, "indices": idx, "scale": sc, "rho": rho})
+    # ... and linearized w.r.t. declared differentiated inputs only: every multi-input layout of the constraint vector x
+    # every non-empty subset of the inputs (strict subsets and the full set) x method x index group x scale kind; rho = 3
+    # (soft-max weights of the same order on all the constraints: the weight of a constraint depends on all the others)
+    # in the quick tier, the default rho = 100 too in the thorough tier
+    layouts = [[1, 1], [1, 2], [2, 1], [1, 1, 1]] + ([[2, 2], [1, 2, 1]] if thorough else [])
+    for method in AGGS:
+        ks = method in ("IKS", "lower_bound_KS", "upper_bound_KS")
+        for sizes in layouts:
+            m = sum(sizes)
+            for diff in subsets(len(sizes), proper=False)[1:]:
+                for idx in [None] + subsets(m, proper=False)[1:]:
+                    for sc in SCALES:
+                        for rho in (((3.0, None) if thorough else (3.0,)) if ks else (None,)):
+                            cases.append({"helper": "discipline", "method": method, "sizes": sizes, "indices": idx, "scale": sc,
+                                          "rho": rho, "diff": diff})
     return cases
 
 
@@ -1682,7 +1801,7 @@ def run(ctx):
     leaves = [["leaf", n] for n in FUNC_LEAVES]
     t1 = trees_depth1(FUNC_LEAVES, c)
     n1 = phase(ctx, "depth1", [{"tree": t} for t in t1])
-    nh = phase(ctx, "helpers", helper_cases(leaves + t1, c), chunk=50)
+    nh = phase(ctx, "helpers", helper_cases(leaves + t1, c, bool(ctx.thorough)), chunk=50)
     # histories on function objects: every public setter of the defining data found on the anchored classes
     found = discover_setters()
     handled = {(k, a) for k, v in SETTERS.items() for a in v}
@@ -1695,6 +1814,9 @@ def run(ctx):
     bounds = {"depth": 2, "function_leaves": FUNC_LEAVES, "constants": ["number", "array of the output size"],
               "operators": [*BINOPS, "neg", "offset(number>0)", "offset(number<0)", "offset(array)"],
               "trees_depth1": n1, "trees_depth2": n2, "helper_cases": nh, "history_cases": nhist,
+              "convex_linearization_masks": "None and every boolean mask (all-False, mixed, all-True) on every 2- and 3-input base",
+              "discipline_layouts_x_differentiated_inputs": "compute_all_jacobians=True on [2],[3],[1,2]; every non-empty subset of "
+              "the inputs declared differentiated on [1,1],[1,2],[2,1],[1,1,1]" + (",[2,2],[1,2,1]" if ctx.thorough else ""),
               "histories": "construct -> [evaluate, jac] -> [build composite -> [evaluate, jac]] -> 1 or 2 public setters -> "
               "[build composite] -> value and Jacobian of the function and of the composite on the grid",
               "points_per_case": {"depth<=1 and helpers": "3x3 grid (3 values per input dimension)",
@@ -1728,7 +1850,13 @@ def run(ctx):
             "histories: a composite built before a setter call may follow the new data or keep the data it copied at construction "
             "(value and Jacobian under the same reading); func and jac of a user function are replaced together; setters that do "
             "not define the value (input_names, output_names, expects_normalized_inputs) are not exercised",
-            "convex linearization: expansion and evaluation points without zero component (reciprocal variables)",
+            "convex linearization: expansion and evaluation points without zero component (reciprocal variables); a value / "
+            "Jacobian mismatch confined to the entries into which a reciprocal term enters (negative derivative at the "
+            "expansion point on an approximated input) is reported under the registered known-finding signature "
+            "op=ConvexLinearApprox; a mismatch on any other entry is reported as op=ConvexLinearApprox[<part>]",
+            "ConstraintAggregation linearized w.r.t. declared differentiated inputs: only the blocks of the declared inputs "
+            "are compared (whatever else discipline.jac holds is not looked at); subsets are declared in increasing input "
+            "order; rho = 3 in the quick tier (rho = 3 and the default 100 in the thorough tier)",
             "points where a denominator vanishes, where two maximal constraints tie, or where the derived tolerance exceeds 1e-7 "
             "relative are skipped and counted (points_skipped_singular_or_ill_conditioned)",
             "sum-of-squares aggregations: both readings of 'scale' (scale*g^2 and (scale*g)^2) are accepted; lower_bound_KS may use "
